@@ -313,6 +313,69 @@ def run(tier, seed, replay=None):
         if len(samples) < 2:
             samples.append({"case": "c%04d" % i, "files": files, "seed_positions": pos[:5]})
         shutil.rmtree(d, ignore_errors=True)
+    # (ii-b) diagnostics about the language table and about rules written with the line-break item `#` at the start of a
+    # line: the faults sit on lines of their own, in the main file or in a file included inside the braces of a group
+    for v in range(8 if tier == "quick" else 60):
+        vrng = random.Random(seed * 1000 + 77 + v)
+        d = os.path.join(work, "lang%03d" % v)
+        os.makedirs(d)
+        font_, _g, _c = __import__("ttf").simple_font(30)
+        open(os.path.join(d, "in.ttf"), "wb").write(font_)
+        shutil.copy(common.STDDEF, d)
+        feats = ["table(feature)", "  tones { id = 1001; default = off; settings { off { value = 0 } on { value = 1 } } }",
+                 "  dialect { id = 1002; default = north; settings { north { value = 0 } south { value = 1 } } }", "endtable;"]
+        main = ['#include "stddef.gdh"'] + ["// comment %d" % k if vrng.random() < 0.5 else "" for k in range(vrng.randint(0, 3))]
+        files = {}
+        if vrng.random() < 0.5:
+            files["feats.gdh"] = feats
+            main.append('#include "feats.gdh"')
+        else:
+            main += feats
+        main += ["#define ODD_DIALECT 7", "table(glyph)", "  cA = glyphid(3);", "  cB = glyphid(4);", "endtable;"]
+        expect = []   # (file, line, id)
+        hash_lines = vrng.random() < 0.6
+        if hash_lines:
+            # rules whose second line starts with # come BEFORE the faults: every later location depends on them
+            main += ["table(sub)", "  cA > cB /", "     # _ ;", "  cB > cA / _", "     # ;", "endtable;"]
+        main += ["table(language)", "  viet {", '    languages = ("vie", "mnw");'] + ["" for _ in range(vrng.randint(0, 2))] + ["    tones = on;"]
+        main.append("    dialect = ODD_DIALECT;")
+        expect.append(("p.gdl", len(main), "3523"))
+        main += ["  };", "  thai {", '    languages = ("tha");']
+        items = ["    tones = on;", "    dialect = western;", "    register = 1;"]
+        if vrng.random() < 0.5:
+            inc = ["// feature assignments of the group thai"] + ["" for _ in range(vrng.randint(0, 2))] + items
+            files["lang_items.gdh"] = inc
+            expect.append(("lang_items.gdh", len(inc) - 1, "3156"))
+            expect.append(("lang_items.gdh", len(inc), "3154"))
+            main.append('#include "lang_items.gdh"')
+        else:
+            main += items
+            expect.append(("p.gdl", len(main) - 1, "3156"))
+            expect.append(("p.gdl", len(main), "3154"))
+        main += ["  };", "endtable;"]
+        if not hash_lines:
+            main += ["table(sub)", "  cA > cB;", "endtable;"]
+        files["p.gdl"] = main
+        write_files(d, files, False)
+        rc, log, _ = common.run_grc(build, d, ["-q", "p.gdl", "in.ttf", "out.ttf"])
+        err = open(os.path.join(d, "gdlerr.txt"), errors="replace").read() if os.path.exists(os.path.join(d, "gdlerr.txt")) else ""
+        cites = re.findall(r"^(\S+)\((\d+)\) : (?:error|warning)\((\d+)\)", err, flags=re.M)
+        stats["language_table_programs"] += 1
+        problems = []
+        for (fn, ln, eid) in expect:
+            stats["language_table_faults"] += 1
+            got = [(os.path.basename(f), int(l)) for f, l, e in cites if e == eid]
+            if not got:
+                problems.append("fault %s expected at %s(%d): no such diagnostic (diagnostics: %s)" % (eid, fn, ln, cites[:6]))
+            elif (fn, ln) not in got:
+                problems.append("fault %s sits at %s(%d); the error file cites %s" % (eid, fn, ln, got[:3]))
+        if problems:
+            dd = os.path.join(rep.replay_dir, "C18-%s-lang%03d" % (seed, v))
+            shutil.rmtree(dd, ignore_errors=True)
+            shutil.copytree(d, dd)
+            rep.violation("lang%03d" % v, {"case": "lang%03d" % v, "problems": problems, "files": files, "lines_starting_with_hash_before_the_faults": hash_lines})
+        distinct.add(("language-table", "lang_items.gdh" in files, hash_lines))
+        shutil.rmtree(d, ignore_errors=True)
     # (iii) gdlpp exit status
     pd = os.path.join(work, "pp")
     os.makedirs(pd)
@@ -343,7 +406,7 @@ def run(tier, seed, replay=None):
         elif (r.returncode != 0) != said_error:
             rep.violation("pp-" + nm, {"problem": "gdlpp exit status %d but it %s an error" % (r.returncode, "reported" if said_error else "did not report"), "stderr": r.stderr[-300:]})
     rep.coverage.update({
-        "programs": stats["pairs"], "seeded_errors": stats["seeds"], "seeded_syntax_errors": stats["syntax_seeds"], "seeded_syntax_lines_before_marker": stats["syntax_seeds_before_marker"],
+        "programs": stats["pairs"], "language_table_programs": stats["language_table_programs"], "language_table_faults_located": stats["language_table_faults"], "seeded_errors": stats["seeds"], "seeded_syntax_errors": stats["syntax_seeds"], "seeded_syntax_lines_before_marker": stats["syntax_seeds_before_marker"],
         "parser_errors_via_previous_marker_rule(102)": stats["parser_error_id_102"], "parser_errors_direct(103)": stats["parser_error_id_103"],
         "syntax_seed_without_token_cite": stats["syntax_seed_without_token_cite"], "preprocessor_status_cases": stats["pp_cases"], "rejected": stats["rejected"],
         "traces_validated_against_impl": stats["pairs"] + stats["seeds"] + stats["pp_cases"], "disagreements_checked": len(rep.violations),
